@@ -11,10 +11,13 @@ def explore(res, scale=1, seed=None):
     for fam, k in (("c01", BUDGET[res.tier] * scale), ("c07", BUDGET[res.tier] * scale * 3), ("c15", BUDGET[res.tier] * scale)):
         rows = colfam.run_family(res, fam, k, seed, builds=("default", "purego"))
         n += colfam.compare_builds(res, rows["default"], rows["purego"], fam)
+    # column bodies larger than 1 MiB (chunked reads) and 128 KiB (bufio): direct oracle + digest compared between builds
+    big = colfam.run_direct(res, "c15big", 1, seed, builds=("default", "purego"))
+    n += colfam.compare_builds(res, big["default"], big["purego"], "c15big")
     res.extra["cases_compared_between_builds"] = n
     res.extra["rule"] = ("the same seeded cases run by the harness compiled without and with -tags purego: encodings (into non-empty "
                          "buffers), decodes into fresh columns, prefixes; family c15: every value of the 8-bit element types "
-                         "(16-bit in the thorough tier) and fresh/reset targets; both transcripts compared with each other and "
+                         "(16-bit in the thorough tier) and fresh/reset targets; family c15big: 31 fixed-width kinds with bodies of 1-3 MiB, bulk decode vs piecewise decode vs re-encoding, row digests; both transcripts compared with each other and "
                          "with the respective model variant")
     res.assumptions = ["little-endian host", "Bool bytes other than 0/1 are outside the property (proved divergence lemma)"]
 
